@@ -21,6 +21,9 @@ lower-case hex (`-` = empty); a digest is its packed string (`Digest.String()`).
     anc D                            GetDigestsWithParentInstanceNames -> <d>*
     rtcbin D                         -> <d> <bytes> => ok <d'> | err   (d.GetInstanceName().NewDigestFromCompactBinary(d.GetCompactBinary()))
     fromcbin <inst> <bytes>          NewDigestFromCompactBinary      -> ok <d> | err <label>
+    gdf <inst> <enum> <fallback>     InstanceName.GetDigestFunction(enum, fallback), any int32 enum -> ok <enumValue> | err <label>
+    mkf <inst> <enum> <hash> <size>  GetDigestFunction(enum, len(hash)) + NewDigestFromProto (CAS/AC servers) -> ok <d> | err <label>
+    combine <a> <b>                  KeyFormat(a).Combine(KeyFormat(b))  -> <format>
     build <d>*                       SetBuilder.Add* / Build         -> <d>* | empty
     union <d>* (| <d>*)*             GetUnion                        -> <d>* | empty
     dai <d>* | <d>*                  GetDifferenceAndIntersection    -> onlyA | both | onlyB
@@ -238,6 +241,27 @@ def stepWords : List String → String
       let gs := partitionByInstanceName s
       if gs.isEmpty then "empty" else " | ".intercalate (gs.map showList)
     | none => "bad-op"
+  | ["gdf", i, e, n] =>
+    match str? i, int? e, nat? n with
+    | some i, some e, some n =>
+      match newInstanceName i with
+      | .error err => showRes (.error err)
+      | .ok _ =>
+        match getDigestFunctionEnum e n with
+        | .ok v => s!"ok {v}"
+        | .error err => showRes (.error err)
+    | _, _, _ => "bad-op"
+  | ["mkf", i, e, h, z] =>
+    match str? i, int? e, str? h, int? z with
+    | some i, some e, some h, some z =>
+      match newInstanceName i with
+      | .error err => showRes (.error err)
+      | .ok i => showRes (mkDigestWithFallback i e h z)
+    | _, _, _, _ => "bad-op"
+  | ["combine", a, b] =>
+    match nat? a, nat? b with
+    | some a, some b => s!"{combineKeyFormat a b}"
+    | _, _ => "bad-op"
   | "sx" :: ws =>
     match splitAt "::" ws with
     | [base, prog] =>
